@@ -35,7 +35,7 @@ def main():
         os.makedirs(os.path.dirname(f"{WT}/{place}"), exist_ok=True)
         open(f"{WT}/{place}", "w").write(demo)
         r0 = sh(cmd_demo + " 2>&1 | tail -15", timeout=1800)
-        clean_pass = "test result: ok" in r0.stdout and "FAILED" not in r0.stdout and "error" not in r0.stdout.split("test result")[0][-200:]
+        clean_pass = "test result: ok" in r0.stdout and "FAILED" not in r0.stdout and "could not compile" not in r0.stdout
         ap = sh(f"git apply {d}/patch.diff")
         applied = ap.returncode == 0
         b = sh("cargo build --workspace --offline 2>&1 | tail -3", timeout=1800)
